@@ -296,7 +296,7 @@ func c20Replay(v *Violation) string {
 func init() {
 	register(&check{
 		prop: "C20", name: "independent-objects-concurrently", level: "model_checking",
-		rule: "Stateless model checking of the source-instrumented package: 2 (thorough also 3) goroutines each run a program of 1-2 operations on their own ParsedJson/Serializer values (Parse small/concurrent-path, ParseND, Clone+edit, Serialize in 3 compressed modes + Deserialize, Deserialize of 2 blobs, traverse+marshal), sharing only what the package shares (sync.Pools of s2/zstd coders, the lazily created zstd decoder behind a Once). Every interleaving of all their goroutines (incl. the stage-2 goroutine and the three compressor goroutines of each Serialize) with <= 1 (2) preemptions is executed, pool answers (recycled object vs new) enumerated as environment choices. Oracle: each goroutine observes exactly what it observes running alone; no deadlock/livelock/panic. A separate free-running pass of the same operations built with -race (N goroutines, real pools) supports data-race freedom; a race report there is a violation too. states=scheduling points, transitions=branches, traces_validated=schedules judged; distinct_nontrivial=distinct (programs, observations).",
+		rule:   "Stateless model checking of the source-instrumented package: 2 (thorough also 3) goroutines each run a program of 1-2 operations on their own ParsedJson/Serializer values (Parse small/concurrent-path, ParseND, Clone+edit, Serialize in 3 compressed modes + Deserialize, Deserialize of 2 blobs, traverse+marshal), sharing only what the package shares (sync.Pools of s2/zstd coders, the lazily created zstd decoder behind a Once). Every interleaving of all their goroutines (incl. the stage-2 goroutine and the three compressor goroutines of each Serialize) with <= 1 (2) preemptions is executed, pool answers (recycled object vs new) enumerated as environment choices. Oracle: each goroutine observes exactly what it observes running alone; no deadlock/livelock/panic. A separate free-running pass of the same operations built with -race (N goroutines, real pools) supports data-race freedom; a race report there is a violation too. states=scheduling points, transitions=branches, traces_validated=schedules judged; distinct_nontrivial=distinct (programs, observations).",
 		assume: []string{"plain-memory races are invisible to cooperative scheduling by construction: the auxiliary -race pass (sampling, not exhaustive) carries that part", "klauspost/compress internals are atomic black boxes; its own goroutines run unmanaged inside a step"},
 		body:   c20Body,
 		replay: c20Replay,
